@@ -27,13 +27,13 @@ import copy
 import hashlib
 import os
 
-from .alpha import locals_of, pinned_table
+from .alpha import clone, locals_of, pinned_table
 
 SUFFIX = "__inl"
 
 
 def _fresh(node: ast.AST) -> ast.AST:
-    return copy.deepcopy(node)
+    return clone(node)
 
 
 def _has_return_elsewhere(body: list[ast.stmt]) -> bool:
@@ -117,8 +117,14 @@ def _inlinable(fn: ast.AST) -> bool:
     if any(not (isinstance(d, ast.Name) and d.id in ("staticmethod", "classmethod")) for d in fn.decorator_list):
         return False
     a = fn.args
-    if a.vararg or a.kwarg or a.posonlyargs:
+    if a.vararg or a.posonlyargs:
         return False
+    if a.kwarg:
+        # **kwargs is accepted when the callee only forwards it (`g(…, **kwargs)`): the forwarding sites receive the caller's keywords
+        kw = a.kwarg.arg
+        fwd = {id(k.value) for x in ast.walk(fn) if isinstance(x, ast.Call) for k in x.keywords if k.arg is None and isinstance(k.value, ast.Name) and k.value.id == kw}
+        if any(isinstance(x, ast.Name) and x.id == kw and id(x) not in fwd for x in ast.walk(fn)):
+            return False
     for x in ast.walk(fn):
         if isinstance(x, (ast.Global, ast.Nonlocal, ast.AsyncFunctionDef, ast.Await, ast.Lambda, ast.ClassDef)):
             return False
@@ -136,15 +142,25 @@ def _bind(fn: ast.FunctionDef, call: ast.Call, drop_first: bool):
     pos = [p.arg for p in fn.args.args]
     if drop_first and pos:
         pos = pos[1:]
-    if any(isinstance(x, ast.Starred) for x in call.args) or any(k.arg is None for k in call.keywords) or len(call.args) > len(pos):
+    kwname = fn.args.kwarg.arg if fn.args.kwarg else None
+    if any(isinstance(x, ast.Starred) for x in call.args) or len(call.args) > len(pos):
+        return None
+    if any(k.arg is None for k in call.keywords) and (kwname is None or not all(isinstance(k.value, ast.Name) for k in call.keywords if k.arg is None)):
         return None
     bound = {}
+    forward = []
     for p, a in zip(pos, call.args):
         bound[p] = a
     for k in call.keywords:
+        if k.arg is None or (k.arg not in params and kwname is not None):
+            if k.arg is not None and not _simple_arg(k.value):
+                return None
+            forward.append(k)
+            continue
         if k.arg not in params or k.arg in bound:
             return None
         bound[k.arg] = k.value
+    fn._qv_forward = forward  # type: ignore[attr-defined]
     defaults = dict(zip([p.arg for p in fn.args.args][len(fn.args.args) - len(fn.args.defaults):], fn.args.defaults))
     defaults.update({p.arg: d for p, d in zip(fn.args.kwonlyargs, fn.args.kw_defaults) if d is not None})
     order = pos + [p.arg for p in fn.args.kwonlyargs]
@@ -229,6 +245,18 @@ class Inliner:
         body = [_fresh(st) for st in callee.body if not (isinstance(st, ast.Expr) and isinstance(st.value, ast.Constant) and isinstance(st.value.value, str))]
         sub = _Subst(exprs, renames)
         body = [sub.visit(st) for st in body]
+        if callee.args.kwarg:
+            kw, forward = callee.args.kwarg.arg, getattr(callee, "_qv_forward", [])
+            for st in body:
+                for x in ast.walk(st):
+                    if isinstance(x, ast.Call):
+                        new = []
+                        for k in x.keywords:
+                            if k.arg is None and isinstance(k.value, ast.Name) and k.value.id in (kw, renames.get(kw)):
+                                new.extend(_fresh(f) for f in forward)
+                            else:
+                                new.append(k)
+                        x.keywords = new
         return pre, body
 
     def _inline_stmt(self, st: ast.stmt, cls, fn, fn_qual):
